@@ -87,7 +87,8 @@ class MAUPITIConv2d(nn.Conv2d, MAUPITIModule):
             self.s_y = torch.tensor(1., device=self.device)
             self.skip_requant = True
 
-        # Copy and integerize pretrained biases
+        # Copy and integerize pretrained biases (a missing bias is an all-zero one)
+        int_bias = torch.zeros(self.out_channels, device=self.device)
         with torch.no_grad():
             if conv.bias is not None:
                 self.b_quantizer.dequantize = False
@@ -105,7 +106,7 @@ class MAUPITIConv2d(nn.Conv2d, MAUPITIModule):
                     self.bias = cast(torch.Tensor, self.bias)
                     self.bias.copy_(int_bias)
             else:
-                self.add_bias = None
+                self.add_bias = torch.zeros((1, self.out_channels, 1, 1), device=self.device)
 
         # Done here to avoid the reshape op in fwd
         self.scale = self.scale.view(1, self.out_channels, 1, 1)
